@@ -37,7 +37,8 @@ REGISTRATION = {
             "shadow specification (mask through Cache.Get, K and V rows of every layer); required-branch coverage fails closed.",
     "design_ref": "DESIGN.md §5 C06",
     "note": COMMON_NOTE + "Modelled, not verified: int32 position arithmetic as unbounded Int (positions far from "
-            "2^31), immediate graph execution (ctx.Compute boundaries / maxMoves flushes), all layers Put on every pass (one "
+            "2^31), data movement applied at once in the model (the driver's backend defers every Copy to ctx.Compute in Forward order, so "
+            "a forgotten Forward/Compute shows up as an L1/L2 failure), all layers Put on every pass (one "
             "abstract row array; the driver compares every layer), the cached curMask between passes (SetCausal is observed "
             "only inside an accepted pass). Theorems about defrag / refinement are for the repaired coalescing (fixDefrag, "
             "in the tree; F14 witness shows the pinned one is wrong). canResume_sound assumes the sequence holds no position "
@@ -264,7 +265,9 @@ def run(ctx):
         ctx.leanchecker(MODULES)
     ctx.assumptions += [
         "positions stay far from the int32 limits (the model uses unbounded integers)",
-        "every layer is Put on every forward pass; the fake backend executes copies immediately",
+        "every layer is Put on every forward pass; the fake backend executes a Copy when its context is computed, in Forward order "
+        "(a node never forwarded / a context closed without Compute moves no data: L2 graph-node-never-computed); the Lean model "
+        "applies data movement at once",
         "the runner calls CanResume immediately before a suffix Remove on windowed caches (histories that do "
         "not are counted as l2_skip_window_misuse, not judged)",
     ]
